@@ -109,6 +109,45 @@ def sh(cmd, cwd=None, timeout=1800, env=None):
     return p.returncode, p.stdout.decode("utf8", "replace")
 
 
+# ------------------------------------------------------------------------------------------------
+# per-case CPU limit for implementation calls: a change that makes pycoin loop forever on some input must yield a verdict
+# (a failing input "implementation hangs"), not a check that never returns.  ITIMER_PROF (process CPU time) so that it nests
+# with harness modules that use ITIMER_REAL themselves (c16).  ImplHang derives from BaseException: `except Exception`
+# handlers inside pycoin or the harness do not swallow it.
+import signal, contextlib, resource
+CASE_CPU_LIMIT_S = 180
+
+
+class ImplHang(BaseException):
+    pass
+
+
+def _on_prof(signum, frame):
+    raise ImplHang()
+
+
+@contextlib.contextmanager
+def case_limit(secs):
+    old = signal.signal(signal.SIGPROF, _on_prof)
+    signal.setitimer(signal.ITIMER_PROF, secs)
+    try:
+        yield
+    finally:
+        signal.setitimer(signal.ITIMER_PROF, 0)
+        signal.signal(signal.SIGPROF, old)
+
+
+def limit_memory(gb=40):
+    try:
+        soft, hard = resource.getrlimit(resource.RLIMIT_AS)
+        lim = gb << 30
+        if hard != resource.RLIM_INFINITY:
+            lim = min(lim, hard)
+        resource.setrlimit(resource.RLIMIT_AS, (lim, hard))
+    except Exception:
+        pass
+
+
 class BuildResult:
     def __init__(self):
         self.gen_ok = True
@@ -535,6 +574,9 @@ def run_property(mod, tier: str) -> int:
     if not (br.gen_ok and br.model_ok and br.proof_ok):
         sys.stdout.write(br.gen_log[-1500:] + br.log[-3000:] + "\n")
 
+    case_cpu = int(os.environ.get("VERIF_CASE_CPU_S") or getattr(mod, "CASE_CPU_LIMIT_S", CASE_CPU_LIMIT_S))
+    max_case_cpu = [0.0]
+    limit_memory()
     # ---- correspondence: implementation vs extracted model
     disagreements = []
     n_disagree = 0
@@ -583,10 +625,17 @@ def run_property(mod, tier: str) -> int:
                 break
             model_out = drv.run([c.line for c in cases])
             for c, m in zip(cases, model_out):
+                tc = time.process_time()
                 try:
-                    i = c.impl()
+                    with case_limit(case_cpu):
+                        i = c.impl()
+                except ImplHang:
+                    i = "!HANG:implementation used more than %ds of CPU on this case" % case_cpu
                 except Exception as e:  # harness bug: surface loudly
                     i = "!HARNESS:" + type(e).__name__ + ":" + str(e)[:100]
+                tc = time.process_time() - tc
+                if tc > max_case_cpu[0]:
+                    max_case_cpu[0] = tc
                 n_cases += 1
                 fn = c.line.split(" ", 1)[0]
                 key = fn + (":err" if m.startswith("!") else ":ok")
@@ -631,10 +680,17 @@ def run_property(mod, tier: str) -> int:
                 break
         n_prop += 1
         pc_hist[pc.name] = pc_hist.get(pc.name, 0) + 1
+        tc = time.process_time()
         try:
-            r = pc.thunk()
+            with case_limit(case_cpu):
+                r = pc.thunk()
+        except ImplHang:
+            r = {"kind": "implementation-hangs", "detail": "more than %ds of CPU on this case" % case_cpu}
         except Exception as e:
             r = {"kind": "harness-exception", "detail": "%s: %s" % (type(e).__name__, e), "tb": traceback.format_exc()[-800:]}
+        tc = time.process_time() - tc
+        if tc > max_case_cpu[0]:
+            max_case_cpu[0] = tc
         if r is not None:
             failures.append((pc, r))
         elif len(prop_samples) < 4 and n_prop % 97 == 1:
@@ -724,6 +780,7 @@ def run_property(mod, tier: str) -> int:
             "partial": getattr(mod, "PARTIAL", []),
             "broken": br.broken,
             "translator_fallback": br.gen_fallback,
+            "case_cpu_limit_s": case_cpu, "max_case_cpu_s": round(max_case_cpu[0], 2),
         },
         "assumptions": list(getattr(mod, "ASSUMPTIONS", [])),
         "wall_s": round(wall, 2),
